@@ -86,6 +86,7 @@ type fakeReader struct {
 	calls int
 	frag  bool  // arbitrary (symbolic) fragmentation
 	chunk int   // >0: at most chunk bytes per Read (concrete fragmentation)
+	eofWithData bool // the final bytes are returned together with io.EOF (legal for an io.Reader; QUIC streams do this on FIN)
 }
 
 func (f *fakeReader) Read(p []byte) (int, error) {
@@ -113,6 +114,9 @@ func (f *fakeReader) Read(p []byte) (int, error) {
 	}
 	copy(p, f.data[f.pos:f.pos+n])
 	f.pos += n
+	if f.eofWithData && f.pos >= len(f.data) {
+		return n, io.EOF
+	}
 	return n, nil
 }
 
